@@ -108,6 +108,7 @@ func C16(p *load.Program, run *report.Run) {
 			run.Violate("result-from-equality", key, p.Rel(r.Pos()), "a returned value depends on received data outside a full-label equality", why)
 		}
 	}
+	c16branches(p, run)
 	run.Floor("receive-sites", 4)
 	run.Floor("equality-sites", 2)
 }
@@ -253,4 +254,103 @@ func C15(p *load.Program, run *report.Run) {
 		}
 	}
 	run.Floor("equality-tests", 2)
+}
+
+
+// c16branches: control dependence.  A branch whose condition is computed from
+// received data (other than the verdict of a full-label equality) may only
+// *validate*: one of its two sides must be unable to reach a success return.  If
+// both sides can still succeed, the peer's bytes steer which success is
+// returned — e.g. a loop that decodes as many result labels as a received count
+// says returns a truncated value without an error.
+func c16branches(p *load.Program, run *report.Run) {
+	run.Rule("received-data-steers-only-to-errors", "in the garbler roles every branch on a value derived from received data, other than the verdict of BitFromLabel / Label.Equal, has a side from which no success return is reachable (it validates, it does not choose between successes)")
+	type ref struct{ pkg, typ, name string }
+	for _, r := range []ref{{"circuit", "", "Garbler"}, {"compiler/ssa", "Program", "Stream"}} {
+		var f *ssa.Function
+		var err error
+		if r.typ == "" {
+			f, err = p.Func(r.pkg, r.name)
+		} else {
+			f, err = p.Method(r.pkg, r.typ, r.name)
+		}
+		key := strings.ReplaceAll(strings.TrimPrefix(r.pkg+"."+r.typ+"."+r.name, "."), "..", ".")
+		if err != nil {
+			run.Undecided("received-data-steers-only-to-errors", key, "", err.Error())
+			continue
+		}
+		ta := &flow.Taint{Fn: f,
+			Source: func(ins ssa.Instruction) []ssa.Value {
+				c, ok := ins.(ssa.CallInstruction)
+				if !ok || !isConnReceive(c) {
+					return nil
+				}
+				var out []ssa.Value
+				if v, ok := ins.(ssa.Value); ok {
+					out = append(out, v)
+				}
+				for _, a := range c.Common().Args {
+					if al, ok := a.(*ssa.Alloc); ok {
+						out = append(out, al)
+					}
+				}
+				return out
+			},
+			Sanitizer: func(c ssa.CallInstruction) bool {
+				callee := c.Common().StaticCallee()
+				if callee == nil {
+					return false
+				}
+				s := callee.String()
+				return s == load.Module+"/circuit.BitFromLabel" || s == "("+load.Module+"/ot.Label).Equal"
+			},
+		}
+		ta.Run()
+		// blocks from which a success return is reachable
+		succ := map[*ssa.BasicBlock]bool{}
+		for _, b := range successBlocks(f) {
+			succ[b] = true
+		}
+		for changed := true; changed; {
+			changed = false
+			for _, b := range f.Blocks {
+				if succ[b] {
+					continue
+				}
+				for _, s := range b.Succs {
+					if succ[s] {
+						succ[b] = true
+						changed = true
+					}
+				}
+			}
+		}
+		n := 0
+		for _, b := range f.Blocks {
+			iff, ok := b.Instrs[len(b.Instrs)-1].(*ssa.If)
+			if !ok || !ta.T[iff.Cond] {
+				continue
+			}
+			// the error value of a receive is not peer data: `err != nil` after a receive is transport state
+			if bo, ok := iff.Cond.(*ssa.BinOp); ok && bo.X.Type().String() == "error" {
+				continue
+			}
+			n++
+			k := fmt.Sprintf("%s/branch at %s", key, condShape(iff.Cond))
+			if succ[b.Succs[0]] && succ[b.Succs[1]] {
+				run.Violate("received-data-steers-only-to-errors", k, p.Rel(iff.Cond.Pos()), "both sides of a branch on received data can reach a success return: the peer's bytes choose which value is returned as a success", ta.Why(iff.Cond, 6))
+			} else {
+				run.OK("received-data-steers-only-to-errors", k, p.Rel(iff.Cond.Pos()), "one side cannot succeed")
+			}
+		}
+		run.Count("received-data-branches", n)
+	}
+	run.Floor("received-data-branches", 2)
+}
+
+func condShape(v ssa.Value) string {
+	if bo, ok := v.(*ssa.BinOp); ok {
+		return fmt.Sprintf("<%s> %s <%s>", bo.X.Type().String(), bo.Op, bo.Y.Type().String())
+	}
+	return fmt.Sprintf("<%T>", v)
 }
